@@ -77,11 +77,19 @@ func (r *Run) note(format string, a ...any) {
 	r.notes = append(r.notes, fmt.Sprintf(format, a...))
 }
 
-func (r *Run) errOf(rid int) error {
+func (r *Run) errOf(rid int, kind int) error {
 	if e, ok := r.regErr[rid]; ok {
 		return e
 	}
-	e := fmt.Errorf("scripted constructor error of registration %d", rid)
+	var e error
+	switch kind {
+	case 1:
+		e = &PtrErr{Rid: rid}
+	case 2:
+		e = ValErr{Rid: rid}
+	default:
+		e = fmt.Errorf("scripted constructor error of registration %d", rid)
+	}
 	r.regErr[rid] = e
 	return e
 }
@@ -286,6 +294,9 @@ func (r *Run) decode(v reflect.Value, ty int, group bool) AVal {
 }
 
 func (r *Run) makeOutput(reg *Reg, inv, k, staticTy int) reflect.Value {
+	if k < len(reg.Dyn) && reg.Dyn[k] == tNilOut {
+		return reflect.Zero(goType(staticTy))
+	}
 	dyn := staticTy
 	if k < len(reg.Dyn) {
 		dyn = reg.Dyn[k]
@@ -347,7 +358,14 @@ func (r *Run) ctorBody(reg *Reg, fnType reflect.Type, args []reflect.Value) []re
 	case OPanic:
 		panic(PanicVal{Rid: reg.ID})
 	case OErr:
-		outs[len(outs)-1] = reflect.ValueOf(r.errOf(reg.ID)).Convert(errType)
+		switch f.ErrKind {
+		case 1:
+			outs[len(outs)-1] = reflect.ValueOf(r.errOf(reg.ID, 1))
+		case 2:
+			outs[len(outs)-1] = reflect.ValueOf(r.errOf(reg.ID, 2))
+		default:
+			outs[len(outs)-1] = reflect.ValueOf(r.errOf(reg.ID, 0)).Convert(errType)
+		}
 		return outs
 	case ONil:
 		return outs
@@ -389,7 +407,14 @@ func (r *Run) fnType(reg *Reg) reflect.Type {
 		out = append(out, outStructType(f.Fields))
 	}
 	if f.Err {
-		out = append(out, errType)
+		switch f.ErrKind {
+		case 1:
+			out = append(out, ptrErrTy)
+		case 2:
+			out = append(out, valErrTy)
+		default:
+			out = append(out, errType)
+		}
 	}
 	return reflect.FuncOf(in, out, false)
 }
@@ -574,7 +599,7 @@ func (r *Run) classify(err error) Result {
 		}
 		n, _ := strconv.Atoi(strings.TrimPrefix(me.Module, "m"))
 		res.Mods = append(res.Mods, n)
-		err = me.Cause
+		err = errors.Unwrap(error(me)) // the standard chain, not the exported field: every wrapper must be reachable by errors.As
 		if err == nil {
 			res.Class = "EOther"
 			return res
